@@ -19,7 +19,7 @@ ASSUMPTIONS = [
     "planting includes editing the public children list directly (the planted unknown element then has no parent link, or a stale one)",
     "removed subtree roots = nodes no longer reachable from the root that no other unreachable node still lists",
 ]
-REQUIRED = ["typed_table_prunes", "prunes_at_inner_node", "prunes", "prunes_strict", "prunes_removing", "offender_below_parent_with_own_error", "second_prunes", "model_agreements",
+REQUIRED = ["trees_with_repeated_id_strings", "typed_table_prunes", "prunes_at_inner_node", "prunes", "prunes_strict", "prunes_removing", "offender_below_parent_with_own_error", "second_prunes", "model_agreements",
             "trees_with_metadata"]
 EXHAUSTIVE = {"quick": False, "thorough": False}
 
@@ -169,6 +169,42 @@ def plant(rng, gen):
     return t, log
 
 
+def repeat_ids_among_kept(rng, t):
+    """The tree rebuilt with some nodes carrying the id string of another node - only among nodes that pruning keeps in both modes
+    (the reference prune says which): what the registry does about two holders of one id is not this property's subject, so no node
+    that leaves the tree shares its id with anything."""
+    plain = snapshot.to_plain(t)
+    kept = None
+    for strict in (True, False):
+        shadow = snapshot.from_plain(Node, plain)
+        order = snapshot.walk(shadow)
+        try:
+            model_prune(shadow, strict)
+        except Exception:
+            emlkit.discard(shadow)
+            return t, False
+        still = {id(x) for x in snapshot.walk(shadow)}
+        k = {i for i, x in enumerate(order) if id(x) in still}
+        kept = k if kept is None else kept & k
+        emlkit.discard(*order)
+    flat = []
+
+    def walk(d):
+        flat.append(d)
+        for c in d.get("children", []):
+            walk(c)
+
+    walk(plain)
+    cands = sorted(i for i in kept if i < len(flat))
+    if len(cands) < 2:
+        return t, False
+    for _ in range(rng.choice([1, 2, 4])):
+        a, b = rng.sample(cands, 2)
+        flat[b]["id"] = flat[a]["id"]
+    emlkit.discard(t)
+    return snapshot.from_plain(Node, plain, fresh_ids=False), True
+
+
 def judge(ctx, whole, strict, log, at_index=None):
     """Prunes the subtree rooted at pre-order position at_index of `whole` (default: the root).  All post-conditions are about
     that subtree; in addition nothing outside it may change and its root stays where it is."""
@@ -194,6 +230,7 @@ def judge(ctx, whole, strict, log, at_index=None):
     idx = {id(n): i for i, n in enumerate(order)}
     before_fields = {id(n): (n.id, n.name, n.content, n.tail, n.prefix, dict(n.attributes), dict(n.extras), dict(n.nsmap)) for n in order}
     before_kids = {id(n): list(n.children) for n in order}
+    link_ok_before = {id(c) for n in order for c in n.children if c.parent is n}
     store_before = dict(Node.store)
     has_md = any(n.name == "metadata" for n in order)
     if has_md:
@@ -215,7 +252,8 @@ def judge(ctx, whole, strict, log, at_index=None):
             if snapshot.snap_node(x) != before_x:
                 ctx.violation(f"prune-changes-outside-subtree|{mode}", f"<{x.name}> outside the pruned subtree changed", wit)
                 return
-        if (par.id, par.name, par.content, dict(par.attributes)) != par_fields or Node.store.get(par.id) is not par:
+        shared_id = sum(1 for x in snapshot.walk(whole) if x.id == par.id) > 1
+        if (par.id, par.name, par.content, dict(par.attributes)) != par_fields or (Node.store.get(par.id) is not par and not shared_id):
             ctx.violation(f"prune-changes-outside-subtree|{mode}", f"the parent <{par.name}> of the pruned subtree changed or left the registry", wit)
             return
     root_removed = isinstance(result, list) and any(isinstance(p, tuple) and p and p[0] is t for p in result)
@@ -267,7 +305,7 @@ def judge(ctx, whole, strict, log, at_index=None):
                                                                      f"{[c.name for c in expect_kids]}", wit)
             return
         for c in n.children:
-            if c.parent is not n:
+            if c.parent is not n and id(c) in link_ok_before:
                 ctx.violation(f"kept-child-parent-link|{mode}", f"<{c.name}> below <{n.name}> has a wrong parent link", wit)
                 return
     # 5. returned list
@@ -282,13 +320,16 @@ def judge(ctx, whole, strict, log, at_index=None):
         ctx.violation(f"returned-list-{what}|{mode}", f"prune returned nodes #{got}, removed subtree roots are #{exp} "
                                                       f"({[order[i].name for i in exp][:8]})", wit)
         return
-    # 6. registry
+    # 6. registry (id strings held by more than one node of the tree say nothing either way)
+    id_count = {}
+    for n in order:
+        id_count[n.id] = id_count.get(n.id, 0) + 1
     for n in unreachable:
-        if Node.store.get(n.id) is n:
+        if id_count[n.id] == 1 and Node.store.get(n.id) is n:
             ctx.violation(f"removed-node-still-registered|{mode}", f"<{n.name}> was pruned but is still registered", wit)
             return
     for n in all_after:
-        if store_before.get(n.id) is n and Node.store.get(n.id) is not n:
+        if id_count.get(n.id, 1) == 1 and store_before.get(n.id) is n and Node.store.get(n.id) is not n:
             ctx.violation(f"kept-node-unregistered|{mode}", f"<{n.name}> is kept but no longer registered", wit)
             return
     # 8. reference model
@@ -326,9 +367,15 @@ def run(ctx, params):
     for i in range(params["trees"]):
         strict = rng.random() < 0.5
         t, log = plant(rng, gen)
+        if i % 8 == 5:
+            t, was_done = repeat_ids_among_kept(rng, t)
+            if was_done:
+                log = log + ["ids repeated among nodes that stay"]
+                ctx.count("trees_with_repeated_id_strings")
         at = None
-        if rng.random() < 0.25:
-            inner = [k for k, x in enumerate(snapshot.walk(t)) if k > 0 and x.name in gen.known and x.children]
+        if rng.random() < 0.25 and "ids repeated among nodes that stay" not in log:
+            inner = [k for k, x in enumerate(snapshot.walk(t)) if k > 0 and x.name in gen.known and x.children
+                     and x.parent is not None and any(c is x for c in x.parent.children)]
             if inner:
                 at = rng.choice(inner)
         ctx.case(judge, ctx, t, strict, log, at)
@@ -372,7 +419,7 @@ def run(ctx, params):
 
 
 def replay(ctx, witness):
-    t = snapshot.from_plain(Node, witness["tree"])
+    t = snapshot.from_plain(Node, witness["tree"], fresh_ids=False)
     judge(ctx, t, witness["strict"], witness.get("plants", []), witness.get("at_index"))
     ctx.distinct(1)
     ctx.distinct(2)
